@@ -159,6 +159,15 @@ CHECKS = {
         "crash granularity is the Python I/O call; kernel write reordering is not modelled; for concurrent writers only wholeness and usability are asserted",
         "property-based testing / fault injection: Hypothesis stateful machine with reference model + exhaustive crash-point and two-thread schedule enumeration under harness-owned I/O interception",
     ),
+    "C18": (
+        "exploration",
+        "Hypothesis rule-based machine over one configuration directory: each run draws a nickname (real fi.cfg sections covering every "
+        "option kind, or fresh names) and, per option, which of CLI / user file (typed text forms) / FI database / fake OFX Home / default "
+        "set it; a reference model computed from independently parsed sources predicts merge_config(); --write runs perform a real "
+        "request against a fake server and are followed by a run without options (persistence), with password / dry-run / default-CLIENTUID checks.",
+        "one ofxget run = module reload against the directory (as a new process sees it); FI-database values as shipped; explicit empty values are not asserted either way",
+        "property-based testing: Hypothesis stateful machine with a reference model of source precedence + metamorphic write/re-run relation",
+    ),
 }
 
 PENDING_REASON = "check not built yet in this round (planned in DESIGN.md §3); not claimed until its machinery exists and is quiet on the unchanged tree"
